@@ -128,6 +128,15 @@ type c10Case struct {
 	// WantLazy: the case is built so that lazy posting expansion must really happen on the
 	// "lazy=aggr" stores; the harness fails (exit 2, not a verdict) if it does not.
 	WantLazy bool `json:"want_lazy"`
+	// Epochs (optional): the bucket content changes between parts of the history. Epoch k has the
+	// blocks Present (indexes into Blocks) in the bucket; every store runs SyncBlocks at its start
+	// and then answers the next Nq queries of Qs. Without epochs: all blocks, all queries.
+	Epochs []c10Epoch `json:"epochs"`
+}
+
+type c10Epoch struct {
+	Present []int `json:"present"`
+	Nq      int   `json:"nq"`
 }
 
 // frame of an answer: labels and chunks [mint, maxt, crc of samples]
@@ -380,6 +389,80 @@ func TestC10(t *testing.T) {
 			c := c10Case{Blocks: blocks, Cr: cr, Qs: qs, Cfgs: cfgs, WantLazy: true}
 			yield(c10ToCase(c))
 		}
+		// --- block-set dynamics: SyncBlocks between the parts of one history ---
+		// A (early half) and B (late half) of one stream, C = their compaction, D = another stream.
+		// The bucket content changes between epochs (a block appears, blocks are deleted, two blocks
+		// are replaced by their compaction); the stores keep their index cache across the syncs and
+		// the same selectors come back in every epoch.
+		for wi := 0; wi < vt.Pick(5, 30); wi++ {
+			ns := 4 + rnd.Intn(5)
+			var sa, sb, sc, sd []c10Series
+			for si := 0; si < ns; si++ {
+				l := map[string]string{"job": "j", "id": fmt.Sprintf("s%02d", si), "n0": []string{"a", "b"}[si%2], "n1": []string{"a", "b"}[(si/2)%2]}
+				var ea, eb [][2]int64
+				for k := 0; k < 4; k++ {
+					if rnd.Intn(4) == 0 {
+						continue
+					}
+					for _, o := range [][]int64{{100, 400}, {0, 999}, {500}}[rnd.Intn(3)] {
+						smp := [2]int64{int64(k)*cr + o, int64(si*100 + k)}
+						if k < 2 {
+							ea = append(ea, smp)
+						} else {
+							eb = append(eb, smp)
+						}
+					}
+				}
+				if len(ea) > 0 {
+					sa = append(sa, c10Series{Ls: l, Samples: ea})
+				}
+				if len(eb) > 0 {
+					sb = append(sb, c10Series{Ls: l, Samples: eb})
+				}
+				if len(ea)+len(eb) > 0 {
+					sc = append(sc, c10Series{Ls: l, Samples: append(append([][2]int64{}, ea...), eb...)})
+				}
+				if rnd.Intn(3) != 0 {
+					sd = append(sd, c10Series{Ls: l, Samples: mkSamples(si + 20)})
+				}
+			}
+			if len(sa) == 0 || len(sb) == 0 || len(sd) == 0 {
+				continue
+			}
+			e1, e2 := map[string]string{"ext": "e1"}, map[string]string{"ext": "e2"}
+			blocks := []c10Block{{Ext: e1, Series: sa}, {Ext: e1, Series: sb}, {Ext: e1, Series: sc}, {Ext: e2, Series: sd}}
+			const A, B, C, D = 0, 1, 2, 3
+			plan := [][][]int{
+				{{A}, {A, B}, {C}},
+				{{A, B, D}, {A, D}, {D}},
+				{{D}, {A, D}, {A, B, D}, {C, D}},
+				{{A, B}, {C}, {C, D}},
+				{{C, D}, {C}, {}},
+			}[wi%5]
+			sels := [][]c10Matcher{
+				{{"n0", "EQ", "lit", []string{"a"}}},
+				{{"n0", "EQ", "lit", []string{"a"}}, {"n1", "EQ", "lit", []string{"b"}}},
+				{{"n1", "NEQ", "lit", []string{"a"}}, {"ext", "EQ", "lit", []string{"e1"}}},
+				{{"n0", "RE", "set", []string{"a", "b"}}, {"n1", "RE", "cls", []string{"a"}}},
+				{{"id", "RE", "nonempty", nil}},
+			}
+			var qs []c10Query
+			var eps []c10Epoch
+			for _, present := range plan {
+				n := 0
+				for _, k := range rnd.Perm(len(sels))[:3] {
+					a, b := ranges(blocks)
+					if rnd.Intn(2) == 0 {
+						a, b = -10, 10000
+					}
+					qs = append(qs, c10Query{Ms: sels[k], Mint: a, Maxt: b})
+					n++
+				}
+				eps = append(eps, c10Epoch{Present: present, Nq: n})
+			}
+			cfgs := []string{"lazy=aggr,batch=1,samp=1,cache=big", "lazy=off,batch=10000,samp=3,cache=big", "lazy=aggr,batch=2,samp=3,cache=tiny", "lazy=on,batch=3,samp=32,cache=none"}
+			yield(c10ToCase(c10Case{Blocks: blocks, Cr: cr, Qs: qs, Cfgs: cfgs, Epochs: eps}))
+		}
 		// --- bigger seeded worlds ---
 		for wi := 0; wi < vt.Pick(6, 30); wi++ {
 			card := 20 + rnd.Intn(21)
@@ -478,6 +561,14 @@ func c10ToCase(c c10Case) vt.Case {
 			c.Blocks[bi].Series = []c10Series{}
 		}
 	}
+	if c.Epochs == nil {
+		c.Epochs = []c10Epoch{}
+	}
+	for ei := range c.Epochs {
+		if c.Epochs[ei].Present == nil {
+			c.Epochs[ei].Present = []int{}
+		}
+	}
 	b, err := json.Marshal(c)
 	if err != nil {
 		panic(err)
@@ -569,7 +660,8 @@ func runC10(t *testing.T, c vt.Case) vt.Event {
 	defer os.RemoveAll(dir)
 
 	// ---- world -> real blocks in a bucket ----
-	bkt := objstore.NewInMemBucket()
+	bkt := objstore.NewInMemBucket()   // the bucket the stores read
+	stage := objstore.NewInMemBucket() // every block of the case; blocks are copied into / deleted from bkt per epoch
 	var wblocks []world.Block
 	for _, bl := range cs.Blocks {
 		wb := world.Block{Ext: bl.Ext, ChunkRange: cs.Cr}
@@ -582,10 +674,55 @@ func runC10(t *testing.T, c vt.Case) vt.Event {
 		}
 		wblocks = append(wblocks, wb)
 	}
-	built, err := world.UploadBlocks(ctx, bkt, filepath.Join(dir, "mk"), wblocks)
+	built, err := world.UploadBlocks(ctx, stage, filepath.Join(dir, "mk"), wblocks)
 	if err != nil {
 		t.Fatalf("c10: building the world failed: %v", err)
 	}
+	epochs := cs.Epochs
+	if len(epochs) == 0 {
+		all := make([]int, len(built))
+		for i := range all {
+			all[i] = i
+		}
+		epochs = []c10Epoch{{Present: all, Nq: len(cs.Qs)}}
+	} else if len(built) != len(cs.Blocks) {
+		t.Fatalf("c10: a case with epochs must not contain empty blocks")
+	}
+	inBkt := map[int]bool{}
+	setBucket := func(present []int) {
+		want := map[int]bool{}
+		for _, i := range present {
+			want[i] = true
+		}
+		for i, bb := range built {
+			id := bb.Meta.ULID.String()
+			switch {
+			case want[i] && !inBkt[i]:
+				var names []string
+				if err := stage.Iter(ctx, id+"/", func(n string) error { names = append(names, n); return nil }, objstore.WithRecursiveIter()); err != nil {
+					t.Fatalf("c10: iter: %v", err)
+				}
+				sort.Slice(names, func(a, b int) bool { return strings.HasSuffix(names[b], "meta.json") && !strings.HasSuffix(names[a], "meta.json") }) // meta.json last, as an upload does
+				for _, n := range names {
+					r, err := stage.Get(ctx, n)
+					if err != nil {
+						t.Fatalf("c10: get: %v", err)
+					}
+					if err := bkt.Upload(ctx, n, r); err != nil {
+						t.Fatalf("c10: upload: %v", err)
+					}
+					r.Close()
+				}
+				inBkt[i] = true
+			case !want[i] && inBkt[i]:
+				if err := block.Delete(ctx, log.NewNopLogger(), bkt, bb.Meta.ULID); err != nil {
+					t.Fatalf("c10: delete block: %v", err)
+				}
+				inBkt[i] = false
+			}
+		}
+	}
+	setBucket(epochs[0].Present)
 
 	// ---- oracle: the same blocks read with the Prometheus TSDB reader ----
 	type oblock struct {
@@ -595,7 +732,7 @@ func runC10(t *testing.T, c vt.Case) vt.Event {
 	var oblocks []oblock
 	for _, bb := range built {
 		bdir := filepath.Join(dir, "oracle", bb.Meta.ULID.String())
-		if err := block.Download(ctx, log.NewNopLogger(), bkt, bb.Meta.ULID, bdir); err != nil {
+		if err := block.Download(ctx, log.NewNopLogger(), stage, bb.Meta.ULID, bdir); err != nil {
 			t.Fatalf("c10: download: %v", err)
 		}
 		ob, err := tsdb.OpenBlock(c10Discard(), bdir, nil, nil)
@@ -656,9 +793,10 @@ func runC10(t *testing.T, c vt.Case) vt.Event {
 		}
 		evBlocks = append(evBlocks, map[string]any{"ext": ob.meta.Thanos.Labels, "series": series})
 	}
-	oracle := func(q c10Query) []c10Frame {
+	oracle := func(q c10Query, present []int) []c10Frame {
 		var out []c10Frame
-		for _, ob := range oblocks {
+		for _, bi := range present {
+			ob := oblocks[bi]
 			ext := labels.FromMap(ob.meta.Thanos.Labels)
 			var rest []*labels.Matcher
 			ok := true
@@ -755,14 +893,38 @@ func runC10(t *testing.T, c vt.Case) vt.Event {
 		index[qi][string(kb)] = g
 		groups[qi] = append(groups[qi], g)
 	}
-	for _, s := range stores {
-		for qi, q := range cs.Qs {
-			add(qi, s.name+"#cold", ask(s, q))
-			add(qi, s.name+"#warm", ask(s, q))
+	loadedAt := make([][]int, len(cs.Qs)) // per query: the blocks in the bucket at the last sync (1-based, as in the event)
+	syncErrs := []string{}
+	q0 := 0
+	for ei, ep := range epochs {
+		if ei > 0 {
+			setBucket(ep.Present)
+			for _, s := range stores {
+				if err := s.bs.SyncBlocks(ctx); err != nil {
+					syncErrs = append(syncErrs, fmt.Sprintf("epoch %d %s: %v", ei, s.name, err))
+				}
+			}
 		}
-		for qi, q := range cs.Qs {
-			add(qi, s.name+"#again", ask(s, q))
+		q1 := q0 + ep.Nq
+		if q1 > len(cs.Qs) || ei == len(epochs)-1 {
+			q1 = len(cs.Qs)
 		}
+		for qi := q0; qi < q1; qi++ {
+			loadedAt[qi] = []int{}
+			for _, bi := range ep.Present {
+				loadedAt[qi] = append(loadedAt[qi], bi+1)
+			}
+		}
+		for _, s := range stores {
+			for qi := q0; qi < q1; qi++ {
+				add(qi, s.name+"#cold", ask(s, cs.Qs[qi]))
+				add(qi, s.name+"#warm", ask(s, cs.Qs[qi]))
+			}
+			for qi := q0; qi < q1; qi++ {
+				add(qi, s.name+"#again", ask(s, cs.Qs[qi]))
+			}
+		}
+		q0 = q1
 	}
 	var lazyApplied, epHits float64
 	for _, s := range stores {
@@ -782,13 +944,17 @@ func runC10(t *testing.T, c vt.Case) vt.Event {
 			}
 			ms = append(ms, map[string]any{"name": m.Name, "type": m.Type, "kind": m.Kind, "alts": alts})
 		}
-		or := oracle(q)
+		present := []int{}
+		for _, b1 := range loadedAt[qi] {
+			present = append(present, b1-1)
+		}
+		or := oracle(q, present)
 		if or == nil {
 			or = []c10Frame{}
 		}
-		evQs = append(evQs, map[string]any{"ms": ms, "mint": q.Mint, "maxt": q.Maxt, "oracle": or, "res": groups[qi]})
+		evQs = append(evQs, map[string]any{"ms": ms, "mint": q.Mint, "maxt": q.Maxt, "oracle": or, "res": groups[qi], "loaded": loadedAt[qi]})
 	}
-	return vt.Event{"blocks": evBlocks, "qs": evQs, "stats": map[string]any{"lazy_applied": int(lazyApplied), "expanded_postings_cache_hits": int(epHits), "stores": len(stores)}}
+	return vt.Event{"blocks": evBlocks, "qs": evQs, "syncerrs": syncErrs, "stats": map[string]any{"lazy_applied": int(lazyApplied), "expanded_postings_cache_hits": int(epHits), "stores": len(stores)}}
 }
 
 // c10CallSeries runs Series and normalises the answer (frames in arrival order).
